@@ -141,7 +141,7 @@ CLAIMED = {
   design="5 C13"),
  "C14": dict(
   text="Lean 4 theorems (FormakVerif.C14: ui_accepts_iff_valid, compile_accepts_iff_valid, ekf_accepts_iff_valid, refuses; without any well-formedness "
-       "hypothesis: negative_noise_refused, sensor_noise_names_refused) prove, for every "
+       "hypothesis: negative_noise_refused, sensor_noise_names_refused, noise_order_irrelevant, control_order_irrelevant - the written order of a table is not structural) prove, for every "
        "definition skeleton whose dictionaries/sets have no duplicate keys, that the sequence of checks each entry point performs accepts "
        "exactly the structurally valid definitions of the property (disjoint symbol sets, update keys = state, calibration keys = calibration "
        "symbols, Symbol-keyed non-negative process noise for exactly the controls, sensor models over state and calibration only, sensor noise "
@@ -177,7 +177,7 @@ CLAIMED = {
   design="5 C16"),
  "C17": dict(
   text="Lean 4 theorems (FormakVerif.C17: get_set, set_config_field, set_param, unknown_refused, process_pos, sensor_pos, process_keys, "
-       "sensor_keys, flatten_inverse_process) prove for every parameter record that get-then-set is the identity, that a Config field name "
+       "sensor_keys, flatten_inverse_process, block_written_order) prove for every parameter record that get-then-set is the identity, that a Config field name "
        "changes exactly that field, that unknown names are refused, and that re-assembled noise maps name exactly the controls and sensors "
        "with strictly positive magnitudes and round-trip through flatten. Tie: get/set/clone/every Config field/unknown keys and the private "
        "flatten / inverse-flatten vs the Lean model; fit outcomes classified {returned, MinimizationFailure, other} with postconditions.",
